@@ -1540,6 +1540,48 @@ func ruleRangeDetails(r *Run) {
 			call = cc
 		}
 	}
+	// the value that stands for the closure's parameter idx at the selectLogs call: the parameter itself, or
+	// (when the closure delegates to a helper) the helper's parameter that receives it
+	paramAt := func(idx int) ssa.Value {
+		if idx < len(cl.Params) {
+			return cl.Params[idx]
+		}
+		return nil
+	}
+	if call == nil {
+		for _, c := range callsIn(cl) {
+			h := staticCallee(c)
+			if h == nil || h.Pkg == nil || h.Pkg != cl.Pkg || len(h.Blocks) == 0 {
+				continue
+			}
+			for _, hc := range callsIn(h) {
+				if cc, ok := hc.(*ssa.Call); ok && callIs(cc, modPath+"/"+enginePkg, "(*Engine).selectLogs") {
+					call = cc
+				}
+			}
+			if call == nil {
+				continue
+			}
+			args := c.Common().Args
+			hp := h.Params
+			paramAt = func(idx int) ssa.Value {
+				if idx >= len(cl.Params) {
+					return nil
+				}
+				var found ssa.Value
+				for k, a := range args {
+					if k < len(hp) && originValue(a) == ssa.Value(cl.Params[idx]) {
+						if found != nil {
+							return nil
+						}
+						found = hp[k]
+					}
+				}
+				return found
+			}
+			break
+		}
+	}
 	if call == nil {
 		os.Fail(r.pos(cl.Pos()), "selectLogs is not called")
 		return
@@ -1558,7 +1600,7 @@ func ruleRangeDetails(r *Run) {
 	for field, prm := range map[string]string{"Start": "start", "End": "end"} {
 		idx := map[string]int{"Start": 1, "End": 2}[field]
 		c, ok := fs[field].(*ssa.Call)
-		if !ok || len(c.Call.Args) != 1 || len(cl.Params) != 3 || originValue(c.Call.Args[0]) != ssa.Value(cl.Params[idx]) {
+		if !ok || len(c.Call.Args) != 1 || len(cl.Params) != 3 || paramAt(idx) == nil || originValue(c.Call.Args[0]) != paramAt(idx) {
 			bad = true
 			os.Fail(r.pos(call.Pos()), "%s is %s, not derived from the %s the evaluator asked for", field, describe(fs[field], 0), prm)
 		}
